@@ -34,3 +34,15 @@ def reach_asm():
 
 def reach_util():
     return callgraph().reachable([UTIL_MAIN])
+
+
+def range_printers():
+    """Qualified names in the disasm_range column of cpu_list[]."""
+    from nk import tables
+    rows, fields, g = tables.rows(program(), 'cpu_list')
+    out = set()
+    for r in rows:
+        f = tables.funcref(r.get('disasm_range'))
+        if f:
+            out.add(f)
+    return out
